@@ -582,9 +582,9 @@ def wide_spec(draw, allow_const=False):
     """long option lists: one threshold node with 8-14 direct children (mostly boolean leaves, 1-2 integer leaves, possibly
     1-2 small compound children), threshold anywhere between 0 and beyond the number of children, either sign; alone or
     under one connective"""
-    nb = draw(st.integers(7, 12))
+    nb = draw(st.sampled_from([7, 8, 9, 10, 10, 11, 11, 12, 12, 13]))
     kids = [{"k": "leaf", "id": "o%02d" % i, "b": [0, 1]} for i in range(nb)]
-    for j in range(draw(st.integers(0, 2))):
+    for j in range(draw(st.sampled_from([0, 1, 1, 1, 2, 2]))):
         b = draw(st.sampled_from([[0, 5], [-2, 3], [0, 2], [-3, 0], [1, 4]]))
         if allow_const and draw(st.integers(0, 5)) == 0:
             b = [b[0], b[0]]
